@@ -150,6 +150,8 @@ def _canon(d):
 # ---- references <-> JSON ------------------------------------------------------------------
 def enc_ref(r):
     t = r[0]
+    if t == 'col':
+        return dict(r[1].spec)
     if t == 'scalar':
         return {'t': t, 'v': pyobs.enc(r[1])}
     if t in ('seq', 'tuple', 'set'):
@@ -166,8 +168,21 @@ def dec_ref(d):
     return (t, d['v'])
 
 
+class ColRef(object):
+    """a reference that is a LIVE COLUMN OBJECT: `col` (of kind `kind`) belongs to `owner` (the source itself, a relative
+    of it, or an unrelated table of the same length); `cells` are its cells, row by row, as plain values; `spec` is the
+    JSON-able recipe (make_ref rebuilds the object from it)"""
+    def __init__(self, col, owner, spec):
+        self.col, self.owner, self.spec = col, owner, spec
+        self.cells = [plainval(v) for v in col]
+        self.kind = kind_of(col)
+        self.before = dump(owner)
+
+
 def ref_object(r):
     t, v = r
+    if t == 'col':
+        return v.col
     if t == 'scalar':
         return v
     if t == 'seq':
@@ -185,6 +200,9 @@ def ref_object(r):
 
 def ref_lit(r):
     t, v = r
+    if t == 'col':
+        # `column OP other_column` is judged as `column OP [the cells of other_column]` (a same-length sequence)
+        return '(OSeq %s)' % L.lst(pyv_lit(x) for x in v.cells)
     if t == 'scalar':
         return '(OScalar %s)' % pyv_lit(v)
     if t in ('seq', 'tuple'):
@@ -236,6 +254,13 @@ class C02:
             'beyond the binary64 range (2^1024, -2^1024, 2^1500+7: float(x) and math.isnan(x) overflow on them) into a '
             'MixedColumn next to NaN, inf, text and None and compares with NaN, +-inf, the largest floats, 2^1023 as int '
             'and float, huge ints, sets / sequences / predicates / types (natural, sorted, selected, horizontally shuffled). '
+            'A family of references that are LIVE COLUMN OBJECTS (dm.a == dm.b; all six operators; every column type on '
+            'both sides): the reference column is a column the derived source already has (the compared column itself, '
+            'an alias, a sibling, a payload column), a column added to the source that repeats the compared cell in about '
+            'half of the rows, a column of a relative (copy / reversed / permuted / resized-and-cut-back table derived '
+            'from the source) or of an unrelated table of the same length; judged as the comparison with the list of '
+            'that column\'s cells, row by row (L0 oracle and L1 model); the reference column and its table must be '
+            'unchanged afterwards. '
             'Every row carries a unique payload p (MixedColumn) and side by side e = p/2 (FloatColumn) and i = 3p+1 '
             '(IntColumn); the L0 oracle compares the row ids and EVERY column of the result with the positional '
             'selection from the dumped source, and independently (Python side) every result row must be, cell for cell over '
@@ -263,6 +288,9 @@ class C02:
         '(|.| <= 2^53, cells then also within 2^53), +-inf/None with ==/!= only; NaN, sets, functions, types with ==/!= '
         'only; sequences of the column length; numeric-looking text, bool and other objects are outside (L1 model only)',
         'elements of sequences and members of sets are compared with plain == (a NaN member matches nothing)',
+        'a column object as reference is modelled as the list of its cells (plain Python numbers): MixedColumn and '
+        'IntColumn iterate it and type-check every cell as they do for a list; a FloatColumn takes the array of a numeric '
+        'reference column as it is (NumericColumn._tosequence) -- the same element-wise comparison, not modelled separately',
         'predicates must not depend on the Python class of a number (NumericColumn hands numpy scalars to them)',
         'set members beyond 2^53 are not generated for a FloatColumn (numpy.float64 == int rounds the int; the L1 model '
         'compares set members exactly)',
@@ -774,6 +802,13 @@ class C02:
                 after = dump(dm)
                 if not same_dump(before, after) and pyfail is None:
                     pyfail = 'the source changed during %s: %r -> %r' % (opn, before, after)
+                if ref[0] == 'col' and pyfail is None:
+                    cr = ref[1]
+                    if not same_dump(cr.before, dump(cr.owner)):
+                        pyfail = 'the table of the reference column changed during %s: %r -> %r' % (
+                            opn, cr.before, dump(cr.owner))
+                    elif not any(c is cr.col for c in cr.owner._cols.values()) or cr.col._datamatrix is not cr.owner:
+                        pyfail = 'the reference column no longer belongs to its table after %s' % opn
                 if out[0] == 'exn':
                     obs_lits.append('(%s, ObsRaise %s)' % (opn, out[1]))
                     observed.append({'op': opn, 'raises': out[1]})
@@ -814,17 +849,22 @@ class C02:
             'model': '(model_agrees %s)' % args,
             'aux': '(some_in_dom %s %s %s %s)' % (src_lit[1], L.string(colname), rlit, xs),
             'nontrivial': any(0 < s < n for s in sizes),
-            'sig': '%s|%s|%s|%s%s%s%s' % (kind, deriv, src_lit[1], rlit, '|shared' if inp['ref'].get('shared') else '',
+            'sig': '%s|%s|%s|%s%s%s%s' % (kind, deriv, src_lit[1],
+                                          rlit + ('|colref:%s/%s' % (inp['ref']['where'], ref[1].kind) if ref[0] == 'col' else ''),
+                                          '|shared' if inp['ref'].get('shared') else '',
                                           '|' + ','.join(inp['between']) if inp.get('between') else '',
                                           '|col=' + colname if colname != 'c' else ''),
             'tags': [kind, deriv, 'ref:' + self.ref_tag(ref), 'len%d' % n] + (['shared-nan'] if inp['ref'].get('shared') else [])
             + (['col:%s/%s' % (colname if colname in 'peit' else 'other', ckind)] if colname != 'c' else [])
+            + (['colref:%s' % inp['ref']['where'], 'colref:%s-vs-%s' % (ckind, ref[1].kind)] if ref[0] == 'col' else [])
             + (['huge-int-cell'] if any(type(x) is int and abs(x) >= HUGE for nm, _k, c in before[1] if nm == colname
                                         for x in c) else []),
         }
 
     def ref_tag(self, ref):
         t, v = ref
+        if t == 'col':
+            return 'column-object'
         if t == 'scalar':
             if type(v) is float:
                 return 'nan' if v != v else ('inf' if math.isinf(v) else 'float')
@@ -878,6 +918,8 @@ class C02:
         """A reference spec may depend on the derived source: 'own' = the column's current cells, 'ownscalar' = one
         of them, 'ownset' = up to three of them (for the payload columns, whose cells no alphabet lists)."""
         col = dm._cols[colname]
+        if r['t'] == 'col':
+            return ('col', self.col_ref(r, dm, colname))
         if r['t'] in ('own', 'ownscalar', 'ownset'):
             cells = [plainval(v) for v in col]
             rnd = _random.Random(r['v'])
@@ -895,6 +937,64 @@ class C02:
             if own and any(type(x) is float and x != x for x in ref[1]):
                 ref = ('set', [x for x in ref[1] if not (type(x) is float and x != x)] + own)
         return ref
+
+    def col_ref(self, r, dm, colname):
+        """the reference is a live column object of kind r['kind']:
+        'same'     a column the derived source already has (the compared column itself, an alias, a sibling, a payload
+                   column); falls back to 'samenew' when the source has no column of that kind;
+        'samenew'  a column added to the source now, holding the compared column's cell in about half of the rows;
+        'relative' a column of a table derived from the source (copy, reversed, permuted: same length, other row
+                   order), either the relative's own copy of the compared column or a column added to the relative;
+        'other'    a column of an unrelated table of the same length.
+        The comparison is positional (row j of the column against cell j of the reference), whatever the row ids."""
+        from datamatrix import DataMatrix
+        rnd = _random.Random(r['seed'])
+        where, k2 = r['where'], r['kind']
+        target = dm._cols[colname]
+        tcells = [plainval(v) for v in target]
+        n = len(dm)
+
+        def fits(c):
+            if k2 == 'KMixed':
+                return True
+            if k2 == 'KFloat':
+                return type(c) is float or (type(c) is int and abs(c) <= 2 ** 53)
+            return type(c) is int and -2 ** 63 <= c < 2 ** 63
+
+        def operand(owner):
+            owner['o'] = coltype(k2)
+            if n:
+                owner['o'] = [c if (fits(c) and rnd.random() < 0.5) else rnd.choice(CELLS[k2]) for c in tcells]
+            return owner._cols['o']
+
+        if where == 'same':
+            names = [nm for nm, c in dm._cols.items() if kind_of(c) == k2]
+            if names:
+                return ColRef(dm._cols[rnd.choice(names)], dm, r)
+            where = 'samenew'
+        if where == 'samenew':
+            return ColRef(operand(dm), dm, r)
+        if where == 'relative':
+            how = rnd.randint(0, 3)
+            if how == 0 or n < 2:
+                rel = dm[:]
+            elif how == 1:
+                rel = dm[::-1]
+            elif how == 2:
+                perm = list(range(n))
+                rnd.shuffle(perm)
+                rel = dm[perm]
+            else:
+                rel = dm[:]
+                rel.length = n + 1          # a relative that was resized and cut back to the same length
+                rel.length = n
+            if kind_of(rel._cols[colname]) == k2 and rnd.random() < 0.5:
+                return ColRef(rel._cols[colname], rel, r)
+            return ColRef(operand(rel), rel, r)
+        assert where == 'other', where
+        other = DataMatrix(length=n)
+        other.p = list(range(n))
+        return ColRef(operand(other), other, r)
 
     # ---- generation -----------------------------------------------------------------------
     def random_ref(self, rng, kind, n, which):
@@ -983,6 +1083,22 @@ class C02:
                                 inp_['between'] = rng.sample(['shuffle_col', 'shuffle_p', 'shuffle_dm', 'sample', 'sort',
                                                               'shuffle_res'], rng.randint(1, 3))
                             add(inp_)
+        # references that are LIVE COLUMN OBJECTS (dm.a == dm.b): every column type on both sides, the reference column
+        # taken from the source itself, from a relative or from an unrelated table of the same length
+        allderivs = DERIVS + DERIVS2 + DERIVS3
+        for kind in KINDS:
+            for k2 in KINDS:
+                for where in ('same', 'samenew', 'relative', 'other'):
+                    for rep in range(2 if tier == 'quick' else 6):
+                        n = rng.randint(2, maxlen) if rep or where == 'same' else rng.randint(0, 1)
+                        cells = [pyobs.enc(rng.choice(CELLS[kind])) for _ in range(n)]
+                        inp_ = {'kind': kind, 'deriv': 'natural' if (rep == 0 and where == 'samenew') else rng.choice(allderivs),
+                                'cells': cells, 'seed': rng.randint(0, 10 ** 6), 'ops': OPNAMES,
+                                'ref': {'t': 'col', 'where': where, 'kind': k2, 'seed': rng.randint(0, 10 ** 6)}}
+                        if rng.random() < 0.15:
+                            inp_['between'] = rng.sample(['shuffle_col', 'shuffle_p', 'shuffle_dm', 'sample', 'sort',
+                                                          'shuffle_res'], rng.randint(1, 2))
+                        add(inp_)
         # integers beyond the binary64 range as MixedColumn cells, against NaN / inf / float / huge references of every
         # kind (a handful of cases: each such numeral is several hundred digits)
         hcells = [pyobs.enc(c) for c in HUGE_CELLS]
